@@ -21,7 +21,8 @@ RULE = ('programs: Hypothesis draws straight-line programs (1..25 steps) over a 
 ASSUMPTIONS = [
     'operands of every step are finite (a non-finite result is retired, so NaN is unreachable)',
     'a no-load current of exactly 0 is accepted by the library and used by C08; it is treated as valid',
-    'arguments within 1e-9 relative of a threshold (helix = 90 deg, i0 = imax) are not judged',
+    'arguments within 1e-9 relative of a threshold (helix = 90 deg, i0 = imax) are not judged, except the exact decimal '
+    'literals of a quarter turn (90 deg, 5400 arcmin, 324000 arcsec, 0.25 rot) and equal currents written in two units',
 ]
 OK_EXC = (TypeError, ValueError, ZeroDivisionError, KeyError, OverflowError)
 
@@ -220,7 +221,11 @@ def check_ctor(case) -> Result:
                 kw['elastic_modulus'] = _q('Stress', *case['E'])
             if which == 'HelicalGear':
                 hs = U.si('Angle', *case['helix'])
-                if abs(hs - math.pi / 2) <= 1e-9:
+                if case.get('exact90'):
+                    # exactly a quarter turn written as a decimal literal of its unit (90 deg, 5400 arcmin, 0.25 rot):
+                    # 'helix angle >= 90 degrees' (equal magnitudes compare equal whatever the units, C05)
+                    invalid.append('helix>=90deg')
+                elif abs(hs - math.pi / 2) <= 1e-9:
                     ambiguous = True
                 elif hs >= math.pi / 2:
                     invalid.append('helix>=90deg')
@@ -272,9 +277,10 @@ def s_ctor(draw):
     which = draw(st.sampled_from(['DCMotor', 'DCMotor', 'pwm', 'SpurGear', 'HelicalGear', 'WormWheel', 'WormGear']))
     case = {'ctor': which}
     if which == 'DCMotor':
-        bad = draw(st.sampled_from(['w0', 'tmax', 'i0', 'imax', 'order', 'equal', 'none', 'none']))
-        case['w0'] = draw(_sq('AngularSpeed', signed=bad == 'w0'))
-        case['tmax'] = draw(_sq('Torque', signed=bad == 'tmax'))
+        bad = draw(st.sampled_from(['w0', 'tmax', 'i0', 'imax', 'order', 'equal', 'none', 'none', 'several']))
+        # ('several': more than one parameter may be non-physical at once - two wrongs do not make a right)
+        case['w0'] = draw(_sq('AngularSpeed', signed=bad in ('w0', 'several')))
+        case['tmax'] = draw(_sq('Torque', signed=bad in ('tmax', 'several')))
         if bad == 'equal':
             from fractions import Fraction as Fr
             ua = draw(st.integers(1, 9999)) * 10 ** draw(st.integers(0, 3))          # microampere
@@ -303,8 +309,11 @@ def s_ctor(draw):
             case['E'] = draw(_sq('Stress', -2, 3))
         if which == 'HelicalGear':
             u = draw(st.sampled_from(list(U.UNITS['Angle'])))
-            deg = draw(st.one_of(st.floats(0, 200), st.sampled_from([89.999, 90.0, 90.001, 0.0, 45.0, 135.0])))
+            deg = draw(st.one_of(st.floats(0, 200), st.floats(0, 1000), st.sampled_from([89.999, 90.0, 90.001, 0.0, 45.0, 135.0, 270.0, 300.0, 360.0, 400.0])))
             case['helix'] = [_from_si('Angle', math.radians(deg), u), u]
+            if draw(st.integers(0, 9)) == 0:
+                case['helix'] = draw(st.sampled_from([[90, 'deg'], [90.0, 'deg'], [5400, 'arcmin'], [324000, 'arcsec'], [0.25, 'rot']]))
+                case['exact90'] = True
         if which == 'WormWheel':
             _worm(draw, case)
     else:
